@@ -133,7 +133,7 @@ func TestC14_Stream(t *testing.T) {
 				n := g.Int("sampN", 0, 40)
 				m := g.Int("sampM", 0, n)
 				a, _ := random.RestoreChacha20PRG(f.r.Store())
-				xa, xb := iota(n), iota(n)
+				xa, xb := identityPerm(n), identityPerm(n)
 				e1 := a.Samples(n, m, func(i, j int) { xa[i], xa[j] = xa[j], xa[i] })
 				e2 := f.r.Samples(n, m, func(i, j int) { xb[i], xb[j] = xb[j], xb[i] })
 				if e1 != nil || e2 != nil || !equalInts(xa, xb) {
@@ -269,7 +269,7 @@ func head(b []byte) []byte {
 	return b
 }
 
-func iota(n int) []int {
+func identityPerm(n int) []int {
 	x := make([]int, n)
 	for i := range x {
 		x[i] = i
